@@ -905,14 +905,15 @@ def _async_worker(
                     for idx, possible_agent in enumerate(agents)
                 }
                 observation, reward, terminated, truncated, info = env.step(data)
-                transition = observation, reward, terminated, truncated, info
                 if all(
                     [
                         term | trunc
                         for term, trunc in zip(terminated.values(), truncated.values())
                     ]
                 ):
+                    # Surface the first observation of the new episode
                     observation, info = env.reset()
+                transition = observation, reward, terminated, truncated, info
                 observation, reward, terminated, truncated, info = process_transition(
                     transition,
                     observation_space,
